@@ -275,3 +275,51 @@ class Brute:
 
     def frac(self, arr, scale, i):
         return Fraction(int(arr[i]), scale)
+
+
+# ------------------------------------------------------------------ planted-feasible generator
+
+def gen_planted(rng, ncust=None, extra_arc_p=0.25, wide=False):
+    """VRPTW with a planted feasible route partition on integer times; returns (spec, info)
+    info: routes (lists of node names incl. depots), grid (integer times used + a few extras), V (number of routes), Lmin"""
+    ncust = ncust or rng.randint(1, 3)
+    names = ["D"] + NAMES[1:ncust + 1]
+    cust = names[1:]
+    rng.shuffle(cust)
+    # partition customers into routes
+    routes, i = [], 0
+    while i < len(cust):
+        k = rng.randint(1, len(cust) - i)
+        routes.append(cust[i:i + k])
+        i += k
+    times, arcs, used_times = {}, {}, {0}
+    for r in routes:
+        t = 0
+        prev = "D"
+        for c in r:
+            tt = rng.randint(1, 2)
+            t += tt
+            times[c] = t
+            used_times.add(t)
+            arcs[(prev, c)] = (tt, Fraction(rng.randint(-4, 12), 4))
+            prev = c
+        tt = rng.randint(0, 2)
+        arcs[(prev, "D")] = (tt, Fraction(rng.randint(0, 12), 4))
+        used_times.add(t + tt)
+    nodes = [dict(name="D", demand="0", lo="0", hi="inf")]
+    for c in names[1:]:
+        w0 = rng.choice([0, 0, 1]) if not wide else rng.randint(0, 2)
+        w1 = rng.choice([0, 0, 1, 2]) if not wide else rng.randint(0, 3)
+        nodes.append(dict(name=c, demand=fs(Fraction(rng.randint(0, 4), 4)), lo=fs(max(0, times[c] - w0)), hi=fs(times[c] + w1)))
+    for a in names:
+        for b in names:
+            if a != b and (a, b) not in arcs and rng.random() < extra_arc_p:
+                arcs[(a, b)] = (rng.randint(0 if "D" in (a, b) else 1, 2), Fraction(rng.randint(-4, 12), 4))
+    arc_list = [[a, b, fs(t), fs(c)] for (a, b), (t, c) in arcs.items()]
+    rng.shuffle(arc_list)
+    grid = sorted(used_times | {rng.randint(0, max(used_times) + 1) for _ in range(rng.randint(0, 2))})
+    grid = [fs(t) for t in grid]
+    rng.shuffle(grid)
+    spec = dict(nodes=nodes, arcs=arc_list, cap="8", init="8")
+    info = dict(routes=[["D"] + r + ["D"] for r in routes], grid=grid, V=len(routes), Lmin=max(len(r) for r in routes) + 2)
+    return spec, info
